@@ -68,7 +68,13 @@ def _callee_np(t):
     for key in ('resolved', 'callee'):
         p = t.get(key)
         if p:
-            return norm(p)
+            np = norm(p)
+            # `x.into()` goes through core's blanket impl to the crate's own `impl From<T> for U`
+            if np.endswith('core::convert::Into>::into') or np == 'core::convert::Into::into':
+                ta = t.get('targs') or []
+                if len(ta) == 2:
+                    return norm('<%s as core::convert::From<%s>>::from' % (ta[1], ta[0]))
+            return np
     return None
 
 
@@ -201,7 +207,8 @@ def inline_view(fns, known):
     """fns: list of function fact dicts of one crate and one MIR stage.  Returns (new list, report)."""
     plain = {}
     for f in fns:
-        if f['kind'] in ('Fn', 'AssocFn') and not (f.get('assoc') or {}).get('trait') and not f.get('coroutine'):
+        # (a method of a trait impl counts when a call resolves to it statically: `impl From<EffectId> for Slot`)
+        if f['kind'] in ('Fn', 'AssocFn') and not f.get('coroutine') and ((f.get('assoc') or {}).get('impl') or not (f.get('assoc') or {}).get('trait')):
             plain.setdefault(norm(f['path']), []).append(f)
     unknown = {np: gs[0] for np, gs in plain.items() if np not in known and len(gs) == 1}
     if not unknown:
